@@ -269,6 +269,16 @@ class C16(Prop):
                 case["ix"] = [rng.randrange(n) for _ in range(rng.randint(1, n + 2))]
             return case
 
+        # long lists (hundreds to a couple of thousand events)
+        for n in ([257, 1025] if ctx.quick else [129, 257, 513, 1025, 2049]):
+            l = revents(n, ["x", "y", ["x"], 2], 0.9, sorted_ts=True)
+            out.append(("long", {"k": "merge", "l": l, "keys": ["k1", "k2"]}))
+            out.append(("long", {"k": "chunk", "l": l, "key": "k1", "pt": 5.0}))
+            out.append(("long", {"k": "sortts", "l": revents(n, ["x"], 0.3)}))
+            out.append(("long", {"k": "sortdur", "l": revents(n, ["x"], 0.3)}))
+            out.append(("long", {"k": "filter", "l": l, "key": "k1", "vals": ["x", 2]}))
+            out.append(("long", {"k": "limit", "l": l, "count": n - 1}))
+
         nr = ctx.pick(1500, 40000)
         for _ in range(nr):
             pool = hashpool if rng.random() < 0.85 else valpool
